@@ -9,53 +9,40 @@ import (
 func itoa(n int) string { return strconv.Itoa(n) }
 
 // enumStrings calls f for every string over alpha of length 0..bound,
-// shortest first within each worker, using up to workers goroutines.
-// f returns false to stop the enumeration early.
+// level by level (all strings of length l before any of length l+1), each
+// level spread over up to workers goroutines. f returns false to stop:
+// the current level is abandoned and no further level is started, so a
+// reported failure has minimal length.
 func enumStrings(alpha []byte, bound, workers int, f func([]byte) bool) {
 	var stop int32
-	if !f(nil) {
-		return
-	}
-	if bound == 0 {
-		return
-	}
-	// tasks: all prefixes of length min(2,bound); each worker enumerates
-	// all extensions of its prefix.
-	pl := 2
-	if bound < 2 {
-		pl = bound
-	}
-	var prefixes [][]byte
-	var rec func(cur []byte)
-	rec = func(cur []byte) {
-		if len(cur) > 0 && len(cur) < pl {
-			// shorter than prefix length: evaluated here, not by workers
-			if atomic.LoadInt32(&stop) == 0 && !f(append([]byte(nil), cur...)) {
-				atomic.StoreInt32(&stop, 1)
+	for l := 0; l <= bound && atomic.LoadInt32(&stop) == 0; l++ {
+		pl := 2
+		if l < pl {
+			pl = l
+		}
+		var prefixes [][]byte
+		var rec func(cur []byte)
+		rec = func(cur []byte) {
+			if len(cur) == pl {
+				prefixes = append(prefixes, append([]byte(nil), cur...))
+				return
+			}
+			for _, c := range alpha {
+				rec(append(cur, c))
 			}
 		}
-		if len(cur) == pl {
-			prefixes = append(prefixes, append([]byte(nil), cur...))
-			return
+		rec(nil)
+		ch := make(chan []byte, len(prefixes))
+		for _, p := range prefixes {
+			ch <- p
 		}
-		for _, c := range alpha {
-			rec(append(cur, c))
-		}
-	}
-	rec(nil)
-	ch := make(chan []byte, len(prefixes))
-	for _, p := range prefixes {
-		ch <- p
-	}
-	close(ch)
-	var wg sync.WaitGroup
-	for w := 0; w < workers; w++ {
-		wg.Add(1)
-		go func() {
-			defer wg.Done()
-			for p := range ch {
-				// iterative deepening so that short strings come first
-				for l := len(p); l <= bound; l++ {
+		close(ch)
+		var wg sync.WaitGroup
+		for w := 0; w < workers; w++ {
+			wg.Add(1)
+			go func() {
+				defer wg.Done()
+				for p := range ch {
 					if atomic.LoadInt32(&stop) != 0 {
 						return
 					}
@@ -79,8 +66,8 @@ func enumStrings(alpha []byte, bound, workers int, f func([]byte) bool) {
 						return
 					}
 				}
-			}
-		}()
+			}()
+		}
+		wg.Wait()
 	}
-	wg.Wait()
 }
